@@ -54,6 +54,7 @@ var (
 	// mapRanges: "file:offset of for" of range statements over maps
 	mapRanges   = map[string]bool{}
 	mapRewrites int
+	blockWraps  int // statements bracketed as possibly blocking (channel ops, Cond/WaitGroup)
 	goStmts     int // go statements in the tree under test (their goroutines are not scheduled by the simulator)
 )
 
@@ -331,7 +332,7 @@ func main() {
 	writeHooks(*dir, pkgName)
 	writeRaceShims(*dir, pkgName)
 	writeAccess(*dir, pkgName, globals, hasBigIntInner && hasNegSentinel)
-	fmt.Printf("instr: %d files, %d yield sites, %d package-level vars, %d sync.{Pool,Mutex,RWMutex} rewrites, %d map-range rewrites, knobs=%v\n", len(files), len(sites), len(globals), poolRewrites, mapRewrites, knobApplied)
+	fmt.Printf("instr: %d files, %d yield sites, %d package-level vars, %d sync.{Pool,Mutex,RWMutex} rewrites, %d map-range rewrites, %d blocking statements bracketed, knobs=%v\n", len(files), len(sites), len(globals), poolRewrites, mapRewrites, blockWraps, knobApplied)
 }
 
 func fatal(err error) {
@@ -464,6 +465,55 @@ func stmtSyncs(n ast.Node) bool {
 	return found
 }
 
+// blockingSimple reports whether st is a simple statement (no nested blocks, no
+// calls into the package) that performs a channel operation or waits on / wakes
+// a sync.Cond or sync.WaitGroup. Such statements are bracketed so that the
+// simulator knows the task may park in the Go runtime there.
+func blockingSimple(st ast.Stmt) bool {
+	switch st.(type) {
+	case *ast.ExprStmt, *ast.AssignStmt, *ast.SendStmt, *ast.IncDecStmt:
+	default:
+		return false
+	}
+	found, simple := false, true
+	if _, ok := st.(*ast.SendStmt); ok {
+		found = true
+	}
+	ast.Inspect(st, func(x ast.Node) bool {
+		switch n := x.(type) {
+		case *ast.FuncLit:
+			simple = false
+			return false
+		case *ast.UnaryExpr:
+			if n.Op == token.ARROW {
+				found = true
+			}
+		case *ast.CallExpr:
+			switch f := n.Fun.(type) {
+			case *ast.Ident:
+				switch f.Name {
+				case "close":
+					found = true
+				case "len", "cap", "make", "new":
+				default:
+					simple = false
+				}
+			case *ast.SelectorExpr:
+				switch f.Sel.Name {
+				case "Wait", "Signal", "Broadcast", "Done":
+					found = true
+				default:
+					simple = false
+				}
+			default:
+				simple = false
+			}
+		}
+		return true
+	})
+	return found && simple
+}
+
 // firstSync: the statement list about to be instrumented is the body of an
 // if / for whose header synchronised (check-then-act windows).
 var firstSync bool
@@ -487,6 +537,11 @@ func instrumentBody(fset *token.FileSet, file, fn string, body *ast.BlockStmt, a
 					text += "verifLk(1); "
 					add(s.End(), "; verifLk(-1)")
 				}
+			}
+			if blockingSimple(st) {
+				blockWraps++
+				text += fmt.Sprintf("verifTok%d := verifBkEnter(); ", id)
+				add(st.End(), fmt.Sprintf("; verifBkLeave(verifTok%d)", id))
 			}
 			add(st.Pos(), text)
 			// a statement that obtained a pointer into shared package state
@@ -680,6 +735,26 @@ func verifBlock(addr unsafe.Pointer) {
 func verifUnblock(addr unsafe.Pointer) {
 	if VerifWake != nil {
 		VerifWake(addr)
+	}
+}
+
+// VerifBkEnter / VerifBkLeave bracket simple statements that may park the task
+// in the Go runtime (channel operations, sync.Cond, sync.WaitGroup).
+var VerifBkEnter func() int32
+var VerifBkLeave func(tok int32)
+
+//go:norace
+func verifBkEnter() int32 {
+	if VerifBkEnter != nil {
+		return VerifBkEnter()
+	}
+	return -1
+}
+
+//go:norace
+func verifBkLeave(tok int32) {
+	if VerifBkLeave != nil && tok >= 0 {
+		VerifBkLeave(tok)
 	}
 }
 
